@@ -14,6 +14,13 @@ def _gen(cfg, mode, name, env, **kw):
     return d
 
 
+def _wgen(name, env, **kw):
+    """C23 under churn: interleavings of one ClosestPeer(s) walk with connections / disconnections (spec/kad/KadWalkGen.tla)"""
+    d = dict(mode="exh", spec="KadWalkGen.tla", cfg="KadWalkGen.cfg", name=name, env=env, timeout=900, workers=2)
+    d.update(kw)
+    return d
+
+
 def _st(e, **kw):
     st = dict(e["st"])
     st.update(kw)
@@ -28,7 +35,8 @@ CHECKS["C22"] = dict(
               "event histories and bin-occupancy vectors; a real kademlia.Kad replays them; the recorded depths are judged by the TLA+ trace spec",
     level_text="TLC exhausts the event model over a small universe and the depth lemmas over every (connected, reachable, radius) of a "
                "larger one; it generates every bin-occupancy vector over a class menu (each built in three event orders on fresh "
-               "instances) plus random event walks followed by two re-constructions of their final state; every recorded "
+               "instances with radius 0, 1 or 31, then SetRadius swept over every radius from the number of bins down to 0 and up again) "
+               "plus random event walks followed by two re-constructions of their final state; every recorded "
                "NeighborhoodDepth is judged against the envelope and against the depths seen for the same state by KadTrace.tla",
     level_note=_KAD_TRUSTED + "; bounded universes (<= 5 peers per bin, bins 0..3 and 29..31)",
     design=[dict(spec="MCKad.tla", cfg="MCKadR.cfg", workers=8, timeout=600),
@@ -58,7 +66,8 @@ CHECKS["C22"] = dict(
     corrupt=corrupt_field("connected", "st", lambda e: _st(e, depth=e["st"]["depth"] + 5)),
     nontrivial=lambda s: sum(1 for o in s["ops"] if o["op"] in ("connected", "outbound")) > 3,
     rule="TLC-generated scenarios: (a) every vector of per-bin classes <<peers, reachable>> over a class menu, built deepest-first/"
-         "outbound, promote-all-then-demote, and shallowest-first on three fresh instances; (a') every class vector with a positive depth over a menu whose bins mix reachable "
+         "outbound, promote-all-then-demote, and shallowest-first on three fresh instances, with radius 0 / 1 / 31 set first or last, followed by "
+         "a SetRadius sweep bins..0..bins,31 on the last instance (radii strictly below, at and above the saturation-derived depth); (a') every class vector with a positive depth over a menu whose bins mix reachable "
          "and unreachable peers, followed by Disconnected / DisconnectForce of one reachable and one unreachable peer of every bin, each "
          "observed immediately and re-connected; (b) -simulate walks of the event model "
          "(connect in/out, disconnect, forced disconnect, reachability both ways, SetRadius, protect, add-peers) followed by the same "
@@ -82,18 +91,33 @@ CHECKS["C23"] = dict(
     level_text="TLC proves on a bounded universe that the bitwise order used by the judge is the XOR-distance order and that the "
                "verdict admits the scan; it generates event walks whose final topology is queried with the product targets x "
                "skip lists x reachability filter x includeSelf x own reachability (ClosestPeer) and targets x counts x filter x skip "
-               "lists (ClosestPeers); every answer is judged by KadTrace.tla",
-    level_note=_KAD_TRUSTED + "; with no eligible peer the statement's two 'exactly when' clauses overlap: both 'not found' and (with "
+               "lists (ClosestPeers); it also models the call as a walk of visits interleaved with connections and disconnections, "
+               "checks that every interleaving answers inside the churn reading of the statement, enumerates the interleavings and has "
+               "the driver force them on the real Kad by holding the walk inside Options.ReachabilityFunc; every answer is judged by KadTrace.tla",
+    level_note=_KAD_TRUSTED + "; a call that overlaps connections / disconnections is judged against every legal linearisation at once: the "
+               "answer must be a peer connected at some point of the call and at least as near as the nearest eligible peer connected "
+               "throughout (several peers: distinct, each at least as near as the nearest not yet listed peer connected throughout); "
+               "with no eligible peer the statement's two 'exactly when' clauses overlap: both 'not found' and (with "
                "includeSelf) 'want self' are accepted there, the code's choice is recorded as a conformance note only; self counts as "
                "certainly eligible iff includeSelf and own reachability Public (code contract), as possibly eligible iff includeSelf",
     design=[dict(spec="MCKad.tla", cfg="MCKadFnC.cfg", workers=8, timeout=1500),
+            # the call as a walk of several steps interleaved with Connected / Disconnected: every interleaving answers inside
+            # the churn reading of the statement (KadWalk!CallOK), a quiet call exactly as the sequential reading demands
+            dict(spec="MCKadWalk.tla", cfg="MCKadWalk.cfg", cfg_thorough="MCKadWalk_thorough.cfg", workers=8, timeout=1200),
             # deepest bins: the XOR-as-natural lemma needs more than 31 bits there, only the closest-peer lemmas are checked
             dict(spec="MCKad.tla", cfg="MCKadFnC_thorough.cfg", workers=8, timeout=2400, thorough_only=True)],
     gen=dict(
-        quick=[_gen("KadGenQuery.cfg", "sim", "queries", dict(VERIF_UNIV="cp", VERIF_BINMAX=5), depth=14, num=3, max=5)],
+        quick=[_gen("KadGenQuery.cfg", "sim", "queries", dict(VERIF_UNIV="cp", VERIF_BINMAX=5), depth=14, num=3, max=5),
+               # every interleaving of one call (3 queries) over 3+1 connected peers with up to two events at one visit
+               _wgen("churn-w1", dict(VERIF_UNIV="w1", VERIF_GATES=1, VERIF_ENV=2, VERIF_PREENV=0))],
         thorough=[_gen("KadGenQuery.cfg", "sim", "queries", dict(VERIF_UNIV="cp", VERIF_BINMAX=5), depth=14, num=25, max=40),
                   _gen("KadGenQuery.cfg", "sim", "queries-short", dict(VERIF_UNIV="cp", VERIF_BINMAX=5), depth=6, num=15, max=15, salt=1),
-                  _gen("KadGenQuery.cfg", "sim", "queries-allreach", dict(VERIF_UNIV="cp", VERIF_BINMAX=5, VERIF_ALLREACH=1), depth=12, num=8, max=8, salt=2)]),
+                  _gen("KadGenQuery.cfg", "sim", "queries-allreach", dict(VERIF_UNIV="cp", VERIF_BINMAX=5, VERIF_ALLREACH=1), depth=12, num=8, max=8, salt=2),
+                  _wgen("churn-w1", dict(VERIF_UNIV="w1", VERIF_GATES=1, VERIF_ENV=2, VERIF_PREENV=0)),
+                  _wgen("churn-w1-pre", dict(VERIF_UNIV="w1", VERIF_GATES=1, VERIF_ENV=2, VERIF_PREENV=1), max=900),
+                  _wgen("churn-w1-two-gates", dict(VERIF_UNIV="w1", VERIF_GATES=2, VERIF_ENV=3, VERIF_PREENV=0), max=1200),
+                  _wgen("churn-w2", dict(VERIF_UNIV="w2", VERIF_GATES=1, VERIF_ENV=2, VERIF_PREENV=0), max=900),
+                  _wgen("churn-w3", dict(VERIF_UNIV="w3", VERIF_GATES=2, VERIF_ENV=2, VERIF_PREENV=0), max=700)]),
     judge=dict(spec="KadTrace.tla", cfg="KadTrace.cfg"),
     judge_timeout=3000, driver_timeout=2400,
     corrupt=corrupt_field("closest", "err", lambda e: "notfound" if e["err"] == "" else None),
@@ -101,10 +125,15 @@ CHECKS["C23"] = dict(
     rule="TLC -simulate walks of the event model (<= 7 connected peers over bins 0,1,2,30,31, ids chosen so that XOR order and numeric "
          "order differ) each followed by ~1270 TLC-enumerated queries: 8 targets (peer addresses, in-bin neighbours, empty bin, deepest "
          "bins, self) x includeSelf x filter x skip lists (all subsets up to 4 peers; singletons, all-but-one, all, by reachability, by bin "
-         "beyond), repeated after flipping own reachability; ClosestPeers with counts 0,1,3,n,n+2; distinct = distinct operation sequence",
+         "beyond), repeated after flipping own reachability; ClosestPeers with counts 0,1,3,n,n+2; plus every interleaving (TLC, exhaustive) "
+         "of one ClosestPeer / ClosestPeers walk over 3+1 (thorough: up to 4+2, 3+1+1) connected peers with up to two (three) Connected / "
+         "Disconnected events placed at one (two) of its visits, targets next to the first / the last / a middle peer of the walked bin; "
+         "distinct = distinct operation sequence",
     exhaustive=dict(quick=False, thorough=False),
     assumptions=["XOR order is decided on the modelled bits: kadaddr gives every address the base's tail",
-                 "skip lists contain connected peers only"],
+                 "skip lists contain connected peers only",
+                 "churn scenarios run with Options.ReachabilityFunc installed (every peer reachable): the function is the only injectable "
+                 "point inside the walk; events are executed on the walking goroutine while it stands inside that function"],
 )
 
 # ------------------------------------------------------------------------------------ C24
@@ -160,6 +189,13 @@ def _hgen(name, env, **kw):
     return d
 
 
+def _hwgen(name, env, **kw):
+    """C29 under churn: interleavings of one find-node request with topology events (spec/hive/HiveWalkGen.tla)"""
+    d = dict(mode="exh", spec="HiveWalkGen.tla", cfg="HiveWalkGen.cfg", name=name, env=env, timeout=900, workers=2)
+    d.update(kw)
+    return d
+
+
 CHECKS["C29"] = dict(
     modules=["hive"], level="model_checking", driver="hivedrv",
     design_ref="5 (C29)",
@@ -168,24 +204,39 @@ CHECKS["C29"] = dict(
     level_text="TLC checks that the two-pass mechanism with the specified split satisfies the five clauses of the statement for every "
                "request of a bounded product; it samples setups (9 pool peers: absent / connected / known-only x public / private / no "
                "record; requester class; AllowPrivateCIDRs) and pairs each with the product limits x targets x order lists; every reply "
-               "of the real handler is judged by HiveTrace.tla",
+               "of the real handler is judged by HiveTrace.tla; it also models the handler as a walk of address-book lookups interleaved "
+               "with connect / disconnect / add-peers / forced-disconnect events, checks the clauses on every interleaving, enumerates "
+               "the interleavings and has the driver force them on the real handler by holding it inside an address-book wrapper",
     level_note="trusted: TLC, streamtest, the protobuf codec, kadaddr, the driver's reverse lookup overlay -> abstract address; underlay "
-               "classes are fixtures (8.8.x.x public; 10.x / 192.168.x private); replies are random subsets, the verdict is an envelope",
-    design=[dict(spec="MCHive.tla", cfg="MCHive.cfg", workers=4, timeout=600)],
+               "classes are fixtures (8.8.x.x public; 10.x / 192.168.x private); replies are random subsets, the verdict is an envelope; "
+               "besides the five clauses of the statement a reply must offer only peers the node held (connected or known) at some point of the call",
+    design=[dict(spec="MCHive.tla", cfg="MCHive.cfg", workers=4, timeout=600),
+            # the handler as a walk of address-book lookups over the connected, then the known peers, interleaved with
+            # connect / disconnect / add-peers / forced disconnect: every interleaving replies inside the statement
+            dict(spec="MCHiveWalk.tla", cfg="MCHiveWalk.cfg", cfg_thorough="MCHiveWalk_thorough.cfg", workers=8, timeout=1200)],
     gen=dict(
         quick=[_hgen("setups-from-2", dict(VERIF_LIMITS="ge2"), num=2, max=3, salt=2),
-               _hgen("setups", dict(VERIF_LIMITS="edge"), num=8, max=12)],
+               _hgen("setups", dict(VERIF_LIMITS="edge"), num=8, max=12),
+               # every interleaving of one request (2 requests) with up to two events at one lookup, 4 connected peers in the walked bin
+               _hwgen("churn-h1", dict(VERIF_UNIV="h1", VERIF_GATES=1, VERIF_ENV=2, VERIF_PREENV=0))],
         thorough=[_hgen("setups-from-2", dict(VERIF_LIMITS="ge2"), num=6, max=10, salt=2),
                   _hgen("setups-all-limits", dict(VERIF_LIMITS="all"), num=30, max=50),
-                  _hgen("setups-edge-limits", dict(VERIF_LIMITS="edge"), num=40, max=70, salt=1)]),
+                  _hgen("setups-edge-limits", dict(VERIF_LIMITS="edge"), num=40, max=70, salt=1),
+                  _hwgen("churn-h1", dict(VERIF_UNIV="h1", VERIF_GATES=1, VERIF_ENV=2, VERIF_PREENV=0)),
+                  _hwgen("churn-h1-pre-two-gates", dict(VERIF_UNIV="h1", VERIF_GATES=2, VERIF_ENV=2, VERIF_PREENV=1), max=1000),
+                  _hwgen("churn-h2", dict(VERIF_UNIV="h2", VERIF_GATES=1, VERIF_ENV=1, VERIF_PREENV=0)),
+                  _hwgen("churn-h2-two-events", dict(VERIF_UNIV="h2", VERIF_GATES=1, VERIF_ENV=2, VERIF_PREENV=0), max=1200)]),
     judge=dict(spec="HiveTrace.tla", cfg="HiveTrace.cfg"),
     judge_timeout=3000, driver_timeout=2400,
     corrupt=corrupt_field("find", "reply", lambda e: e["reply"] + [e["reply"][0]] if e["reply"] else None),
     nontrivial=lambda s: len(s["par"]["peers"]) >= 2 and len(s["ops"]) > 0,
     rule="TLC -simulate setups over a pool of 9 peers in bins 0,1,2,3,31 (requester included), each paired with the product of limits "
          "(0..40 or the boundary values 0,1,2,3,4,5,7,29,30,31,40) x 4 targets (own address, requester, a peer, a free address) x 6 order "
-         "lists (empty, single, the lookup's three orders, deepest, mixed); distinct = distinct (setup, request list)",
+         "lists (empty, single, the lookup's three orders, deepest, mixed); plus every interleaving (TLC, exhaustive) of one request with up "
+         "to two topology events (disconnect of a connected peer, connect / add-peers of a joiner; thorough: forced disconnects, events "
+         "before the request, two lookups) placed at one of the handler's address-book lookups; distinct = distinct (setup, request list)",
     exhaustive=dict(quick=False, thorough=False),
     assumptions=["limits are non-negative (the statement's range 0..40)",
-                 "the requester's address class is what the answering node's address book records for it"],
+                 "the requester's address class is what the answering node's address book records for it",
+                 "churn events are executed on the handler's goroutine while it stands inside the address-book lookup of the visited peer"],
 )
